@@ -517,7 +517,9 @@ fn interface_def<'a>(input: &mut &'a [u8]) -> ModalResult<Interface<'a>, InputEr
             Ok(ParsedMember::Custom(custom_type)) => custom_types.push(custom_type),
             Ok(ParsedMember::Method(method)) => methods.push(method),
             Ok(ParsedMember::Error(error)) => errors.push(error),
-            Err(_) => break,
+            // Whatever is left is not a member: report it instead of silently ignoring it (the
+            // failed attempt may already have consumed part of the input).
+            Err(e) => return Err(e),
         }
     }
 
